@@ -509,8 +509,13 @@ class SubspaceTensor(ProjectiveTensor, ABC):
             True, if the two subspaces are parallel.
 
         """
-        # coinciding subspaces (their meet is the zero tensor, which every hyperplane contains) are parallel
-        x = meet(self, other, _check_dependence=False)
+        if self.dim > 2 and isinstance(self, LineTensor) and isinstance(other, LineTensor):
+            # two lines of space need not meet at all: they are parallel if they have the same point at infinity
+            return is_multiple(self.direction.array, other.direction.array, axis=-1)
+
+        # coinciding subspaces (their meet is the zero tensor, which every hyperplane contains) are parallel; the meet
+        # is not normalized, so that it stays (numerically) zero for subspaces that coincide up to rounding
+        x = meet(self, other, _check_dependence=False, _normalize_result=False)
         return infty_hyperplane(self.dim).contains(x)
 
     @abstractmethod
